@@ -8,6 +8,7 @@ import (
 	"os"
 	"path"
 	"path/filepath"
+	"sort"
 	"strings"
 
 	"github.com/pgavlin/dawn/diff"
@@ -153,11 +154,17 @@ func dirSum(path string, dir *os.File) (string, error) {
 	if err != nil {
 		return "", err
 	}
+	// The sum covers the entries' names as well as their contents, in an order that does not
+	// depend on how the file system happens to list the directory.
+	sort.Slice(entries, func(i, j int) bool { return entries[i].Name() < entries[j].Name() })
 
 	h := sha256.New()
 	for _, entry := range entries {
 		sum, err := fileSum(filepath.Join(path, entry.Name()))
 		if err != nil {
+			return "", err
+		}
+		if _, err := h.Write(append([]byte(entry.Name()), 0)); err != nil {
 			return "", err
 		}
 		if _, err := h.Write([]byte(sum)); err != nil {
